@@ -5177,8 +5177,9 @@ func (t *Terminal) Loop() error {
 					// The default
 					newNth = &t.nth
 				}
-				// Cycle
-				if len(tokens) > 1 {
+				// Cycle through the expressions given in the binding. The output of a
+				// command must not replace the command.
+				if a.t == actChangeNth && len(tokens) > 1 {
 					a.a = strings.Join(append(tokens[1:], tokens[0]), "|")
 				}
 				if !compareRanges(t.nthCurrent, *newNth) {
